@@ -16,7 +16,7 @@ type Defvar struct {
 func defvarFromList(name string, args slip.List, p *slip.Printer) Node {
 	defvar := Defvar{name: name}
 	if sym, ok := args[0].(slip.Symbol); ok {
-		defvar.varName = string(sym)
+		defvar.varName = string(sym.Readably(nil, p))
 	}
 	if 1 < len(args) {
 		defvar.children = append(defvar.children, buildNode(args[1], p))
